@@ -289,9 +289,24 @@ func runC02(p *core.Prog, r *core.Report) {
 			if m == nil || m.Blocks == nil || m.Synthetic != "" || !reachesHandle(m) {
 				continue
 			}
+			if !ms.At(i).Obj().Exported() {
+				continue // not an entry point: judged as part of the exported methods that call it (Handle calls in it are gated by C02-R3)
+			}
 			if len(m.AnonFuncs) > 0 {
 				continue // Relay: records are written from deferred closures; covered by C15
 			}
+			hasDeferredLog := false
+			sx.Instrs(m, func(in ssa.Instruction) {
+				if d, ok := in.(*ssa.Defer); ok {
+					if callee := sx.StaticCallee(d); callee != nil && reachesHandle(callee) {
+						hasDeferredLog = true
+					}
+				}
+			})
+			if hasDeferredLog {
+				continue // Relay with its closures turned into methods: same reason
+			}
+			m = p.Inl(m) // the private helpers (log, logf, logAttrs) are judged in place
 			cut := sx.Cut{Instrs: map[ssa.Instruction]bool{}, Edges: map[sx.Edge]bool{}}
 			sx.Instrs(m, func(in ssa.Instruction) {
 				c, ok := in.(ssa.CallInstruction)
